@@ -2938,6 +2938,7 @@ func main() {
 	// ---- source text of the functions the synchronisation models (Model/C18SyncProgs.lean) transcribe:
 	// one entry per source line as gofmt prints it, logging / tracing and string texts dropped (harness/skel)
 	w("%s", chanOpsLean()) // round 8b: chanops.go
+	w("%s", syncOpsLean()) // round 8c: syncops.go
 	w("namespace Src\n\n")
 	const prog = "extract_c18"
 	emitSrc := func(prefix, rel string, fns [][2]string) {
